@@ -387,6 +387,37 @@ fn driver(k: usize, d: &Def, with_andout: bool) -> String {
                 writeln!(o, "      if vout.as_ptr() as usize != ptr || vout.capacity() != cap {{ out.push(format!(\"FAIL {{}} C03 conversion {pv}->{v} of a Vec in place: the vector of the next variant is not the input's allocation\", M)); }}").unwrap();
                 writeln!(o, "      for (j, r) in vout.iter().enumerate() {{ chk_r{v}(r, base + 40 * j as u32, false, out, \"C05 conversion {pv}->{v} of a Vec in place\"); }}").unwrap();
                 writeln!(o, "      drop(vout); checkpoint(out, M, \"conversion {pv}->{v} of a Vec in place\"); n += 1; }}").unwrap();
+                // ... with the uninit + returning form as converter (C05_vec_in_place_forms): the converter fills the fields
+                // left out and keeps the removed data it was handed, which are checked and dropped afterwards
+                if with_andout {
+                    let plus_vec_u = plus_uninit.replace("BASE", "bj");
+                    writeln!(o, "    {{ let base = 22u32; let mut vin: Vec<{m}::Record{pv}> = Vec::with_capacity(3); for j in 0..3u32 {{ vin.push({m}::Record{pv}::new(mk_u{pv}(base + 40 * j))); }}").unwrap();
+                    writeln!(o, "      let ctr = std::sync::atomic::AtomicU32::new(0); let kept = std::sync::Mutex::new(Vec::new());").unwrap();
+                    writeln!(o, "      let vout: Vec<{m}::Record{v}> = truc_runtime::convert::convert_vec_in_place(vin, |rec: {m}::Record{pv}, _| {{ let bj = base + 40 * ctr.fetch_add(1, std::sync::atomic::Ordering::SeqCst); let _ = bj; let o: {m}::Record{v}AndUnpackedOut<{{ {m}::MAX_SIZE }}> = (rec, {plus_vec_u}).into(); let mut r = o.record; fill_uninit{v}(&mut r, bj, &[{ids}]); kept.lock().unwrap().push((bj, ({fields}))); truc_runtime::convert::VecElementConversionResult::Converted(r) }});",
+                        ids = plus_uninit_ids.join(", "),
+                        fields = minus.iter().map(|f| format!("o.{}", f.name)).collect::<Vec<_>>().join(", ") + if minus.len() == 1 { "," } else { "" }).unwrap();
+                    writeln!(o, "      for (j, r) in vout.iter().enumerate() {{ chk_r{v}(r, base + 40 * j as u32, false, out, \"C05 conversion {pv}->{v} of a Vec in place with the uninit returning form\"); }}").unwrap();
+                    writeln!(o, "      for (bj, t) in kept.into_inner().unwrap() {{ let _ = &t; let _ = bj;").unwrap();
+                    for (idx, f) in minus.iter().enumerate().filter(|(_, f)| has_tok(f)) {
+                        writeln!(o, "        if t.{idx}.tok() != tk(bj, {id}) {{ out.push(format!(\"FAIL {{}} C05 conversion {pv}->{v} of a Vec in place with the uninit returning form: removed field {n} handed back with token {{}} instead of {{}}\", M, t.{idx}.tok(), tk(bj, {id}))); }}", n = f.name, id = f.id).unwrap();
+                    }
+                    writeln!(o, "        drop(t); }}").unwrap();
+                    writeln!(o, "      drop(vout); checkpoint(out, M, \"conversion {pv}->{v} of a Vec in place with the uninit returning form\"); n += 1; }}").unwrap();
+                }
+                // ... with a converter that merges the second element into the previous output (one field of that output is
+                // overwritten through its mutable accessor) and drops it (C05_vec_in_place_merge)
+                if let Some(wfld) = fs.iter().find(|f| has_tok(f)) {
+                    writeln!(o, "    {{ let base = 23u32; let mut vin: Vec<{m}::Record{pv}> = Vec::with_capacity(3); for j in 0..3u32 {{ vin.push({m}::Record{pv}::new(mk_u{pv}(base + 40 * j))); }}").unwrap();
+                    writeln!(o, "      let ctr = std::sync::atomic::AtomicU32::new(0);").unwrap();
+                    writeln!(o, "      let vout: Vec<{m}::Record{v}> = truc_runtime::convert::convert_vec_in_place(vin, |rec: {m}::Record{pv}, prev: Option<&mut {m}::Record{v}>| {{ let j = ctr.fetch_add(1, std::sync::atomic::Ordering::SeqCst); let bj = base + 40 * j; let _ = bj; if j == 1 {{ if let Some(p) = prev {{ *p.{wn}_mut() = <{wty} as Vt>::mk(tk(base, {wid}) + 2); }} drop(rec); return truc_runtime::convert::VecElementConversionResult::Abandonned; }} truc_runtime::convert::VecElementConversionResult::Converted((rec, {plus_vec}).into()) }});", wn = wfld.name, wty = tyx(wfld), wid = wfld.id).unwrap();
+                    writeln!(o, "      if vout.len() != 2 {{ out.push(format!(\"FAIL {{}} C05 merging conversion {pv}->{v} of a Vec in place: {{}} records instead of 2\", M, vout.len())); }} else {{").unwrap();
+                    for f in fs.iter().filter(|f| has_tok(f)) {
+                        let want0 = if f.id == wfld.id { format!("tk(base, {}) + 2", f.id) } else { format!("tk(base, {})", f.id) };
+                        writeln!(o, "        if vout[0].{n}().tok() != {want0} {{ out.push(format!(\"FAIL {{}} C05 merging conversion {pv}->{v} of a Vec in place: field {n} of the first output holds {{}} instead of {{}}\", M, vout[0].{n}().tok(), {want0})); }}", n = f.name).unwrap();
+                    }
+                    writeln!(o, "        chk_r{v}(&vout[1], base + 80, false, out, \"C05 merging conversion {pv}->{v} of a Vec in place, last output\"); }}").unwrap();
+                    writeln!(o, "      drop(vout); checkpoint(out, M, \"merging conversion {pv}->{v} of a Vec in place\"); n += 1; }}").unwrap();
+                }
                 // ... and with a converter that gives up at the second element (it drops it and returns an error)
                 writeln!(o, "    {{ let base = 21u32; let mut vin: Vec<{m}::Record{pv}> = Vec::with_capacity(4); for j in 0..3u32 {{ vin.push({m}::Record{pv}::new(mk_u{pv}(base + 40 * j))); }}").unwrap();
                 writeln!(o, "      let ctr = std::sync::atomic::AtomicU32::new(0);").unwrap();
